@@ -133,14 +133,16 @@ def gen_history(rnd: random.Random, flavor: dict) -> dict:
             if dcomp:
                 entry["criteria"] = "Canonical"
             moves.append(entry)
-        if rnd.random() < flavor.get("wrap_exch", 0.08):
+        # (not next to a composite exchange entry: particles that share a label through KF-C05 would make the swap
+        #  delete two particles at once - a consequence of that finding, not a new fact)
+        if not ecomp and rnd.random() < flavor.get("wrap_exch", 0.08):
             # "use the CompositeMove class with individual ExchangeMove objects" for per-move biases (docstring of
             # CompositeExchangeMove): a swap move - the first always deletes, the second always inserts
             e1, e2 = copy.deepcopy(exch), copy.deepcopy(exch)
             e1["bias"], e2["bias"] = 0.0, 1.0
             moves.append({"name": "xwrap", "criteria": "GrandCanonical", "probability": gen.rfloat(rnd, 0.5, 2.0, 3),
                           "move": {"type": "wrap", "items": [e1, e2]}})
-        elif rnd.random() < flavor.get("wrap_exch_free", 0.0):
+        elif not ecomp and rnd.random() < flavor.get("wrap_exch_free", 0.0):
             # both members decide independently: insert-then-delete and delete-then-delete can happen in ONE trial
             sc["free_exchange_composite"] = True
             moves.append({"name": "xfree", "criteria": "GrandCanonical", "probability": gen.rfloat(rnd, 0.5, 2.0, 3),
